@@ -846,6 +846,27 @@ def _ty_same(a, b):
     return a.get("s") == b.get("s")
 
 
+def _owned_given(x, owned, depth=0):
+    """is `x: OwnedLockable` implied by the function's own `OwnedLockable` predicates and the impls for the std containers
+    (`Vec<L>`, `Box<[L]>`, `[L; N]`, tuples, `&mut L`: owned when their elements are)?"""
+    if depth > 4:
+        return False
+    if any(_ty_same(x, o) for o in owned):
+        return True
+    k = x.get("k")
+    if k == "ref":
+        return bool(x.get("mut")) and _owned_given(x["ty"], owned, depth + 1)
+    if k in ("array", "slice"):
+        return _owned_given(x["ty"], owned, depth + 1)
+    if k == "tuple":
+        return bool(x["elems"]) and all(_owned_given(e, owned, depth + 1) for e in x["elems"])
+    if k == "adt" and not x.get("local") and x.get("path") in ("std::vec::Vec", "std::boxed::Box"):
+        xs = [a for a in x.get("args", []) if a.get("k") not in ("region", "const") and not
+              (a.get("k") == "adt" and a.get("path", "").endswith("Global"))]
+        return bool(xs) and _owned_given(xs[0], owned, depth + 1)
+    return False
+
+
 def _has_owned_bound(f, adt=None):
     """does `f` require its lockable to be OwnedLockable?  The bound counts only when it is on the type the constructed
     collection actually stores: `X: OwnedLockable` for `Coll<X>`; for the sorting and retrying collections also
@@ -862,7 +883,7 @@ def _has_owned_bound(f, adt=None):
         if not xs:
             continue
         x = xs[-1]
-        if any(_ty_same(x, o) for o in owned):
+        if _owned_given(x, owned):
             continue
         if c["path"] != "collection::OwnedLockCollection" and x["k"] == "ref" and not x.get("mut") and any(_ty_same(x["ty"], o) for o in owned):
             continue
